@@ -45,9 +45,21 @@ impl Reader {
     /// Caller must ensure `offset + len <= self.len()`.
     #[inline(always)]
     pub fn unchecked_read(&self, offset: usize, len: usize) -> &[u8] {
+        #[cfg(feature = "verif")]
+        self.verif_access(offset, len, "Reader::unchecked_read");
         let start = self.start() + offset;
         let end = start + len;
         &self.mmap[start..end]
+    }
+
+    /// Reports a byte range (relative to the region) read through this reader.
+    #[cfg(feature = "verif")]
+    #[inline]
+    pub fn verif_access(&self, offset: usize, len: usize, via: &'static str) {
+        if crate::verif::access_enabled() {
+            let meta = self._region.meta();
+            crate::verif::access(meta.id(), offset, len, meta.len(), via);
+        }
     }
 
     #[inline(always)]
